@@ -134,7 +134,12 @@ def parse(line):
             return int(line[st:pos])
         raise ValueError("bad char %r at %d in %r" % (c, pos, line[:80]))
 
-    return value()
+    v = value()
+    while pos < n and line[pos] in " \t\r\n":
+        pos += 1
+    if pos != n:   # markers such as xhang / xabort / xskipped / xmodelcrash are NOT values
+        raise ValueError("trailing text at %d in %r" % (pos, line[:80]))
+    return v
 
 
 def jsonable(v):
@@ -434,10 +439,17 @@ def run_lines(cmd, lines, timeout_per_batch=600, env=None, crash_marker="xabort"
             now = time.time()
             if state["done"]:
                 break
+            if os.environ.get("VERIF_DEBUG") and now - state.get("dbg", 0) > 20:
+                state["dbg"] = now
+                sys.stderr.write("[run_lines dbg] pid %d since_last=%.0f since_start=%.0f bytes=%d stall=%s\n" % (
+                    p.pid, now - state["last"], now - t_start, sum(len(c) for c in chunks), stall_timeout))
             if now - state["last"] > stall_timeout or now - t_start > timeout_per_batch:
                 timed_out = True
                 break
         if timed_out:
+            sys.stderr.write("[run_lines] %s: no result line for %.0f s (or batch limit) - killed, line %d of %d marked xhang\n"
+                             % (os.path.basename(str(cmd[0])), stall_timeout, i + len(b"".join(chunks).split(b"\n")), len(lines)))
+            sys.stderr.flush()
             try:
                 p.kill()
             except Exception:  # noqa: BLE001
